@@ -94,6 +94,48 @@ def judge_case(case):
     return c20_cases.judge(case, loc, dk)
 
 
+def failure_cases(rng, n):
+    """stateless segments (maps only) in which the mapped function FAILS for some inputs; the producer catches the
+    exception and carries on.  (With a stateful node behind the failing one a failed task poisons the state future of
+    the Dask version for good; the property does not speak about that, so only stateless segments are judged.)"""
+    out = []
+    for _ in range(n):
+        nmaps = rng.choice([1, 1, 2, 3])
+        # (values whose failure class is Boom or KeyError; a StopIteration raised inside a coroutine / cluster task is
+        #  converted by Python itself and says nothing about the pipeline)
+        bad = sorted(set(rng.choice([0, 2, 3, 5]) for _ in range(rng.choice([1, 1, 2]))))
+        pos = rng.randrange(nmaps)
+        stages = []
+        for j in range(nmaps):
+            sym = rng.choice([["FInc"], ["FDouble"], ["FId"]])
+            if j == pos:
+                sym = ["FFailIn", bad, sym]
+            stages.append({"k": "map", "f": sym, "style": "closure"})
+        m = rng.choice([3, 4, 5, 6])
+        inputs = [[rng.choice([0, 1, 2, 3, 4, 5]), rng.random() < 0.6] for _ in range(m)]
+        aw = rng.choice([[True] * m, [True] * m, [rng.random() < 0.5 for _ in range(m)]])
+        out.append({"stages": stages, "inputs": inputs, "keep_going": True,
+                    "sched": {"seed": rng.randrange(1 << 30), "mode": rng.choice(["random", "fifo", "lifo"]),
+                              "p_emit": rng.choice([0.3, 0.5, 1.0]), "await": aw}})
+    return out
+
+
+def judge_failure_case(case, loc, dk):
+    """after a failed task the Dask segment must go on exactly like the local one"""
+    out = []
+    if dk["stalled"] or any(v == "pending" for v in dk.get("emit_states", {}).values()):
+        out.append(("C20/after-failure/stalled", "after a task failed on the cluster later elements never came out: local %r, dask %r (emit states %r)"
+                    % (loc["sunk"], dk["sunk"], dk.get("emit_states"))))
+    elif loc["sunk"] != dk["sunk"]:
+        out.append(("C20/after-failure/results-differ", "local %r, dask %r" % (loc["sunk"], dk["sunk"])))
+    else:
+        lf = sorted(k for k, v in loc.get("emit_states", {}).items() if v.startswith("failed"))
+        df = sorted(k for k, v in dk.get("emit_states", {}).items() if v.startswith("failed"))
+        if lf != df:
+            out.append(("C20/after-failure/different-emits-failed", "emits that raised: local %r, dask %r" % (lf, df)))
+    return out
+
+
 def parse_all(out):
     import re
     res = []
@@ -153,6 +195,8 @@ def run(prop, tier, seed, replay=None):
     ntasks = nsteps = 0
     reorder_schedules = 0
     for case in cases:
+        if case.get("keep_going"):
+            continue                      # (a replayed failing-task case: judged below)
         try:
             loc, dk = run_pair(case)
         except Exception as e:
@@ -183,6 +227,24 @@ def run(prop, tier, seed, replay=None):
             cl = C.cls_of(sig)
             if cl not in found or len(json.dumps(case)) < len(json.dumps(found[cl][1])):
                 found[cl] = (msg, case, sig)
+    # ---- segments whose mapped function fails for some inputs (oracle only)
+    nfail = 0
+    if not replay or (cases and cases[0].get("keep_going")):
+        fcases = cases if replay else failure_cases(rng, 80 if tier == "quick" else 1500)
+        for case in fcases:
+            try:
+                loc, dk = run_pair(case)
+            except Exception as e:
+                out.violation("C20/harness-crash", "driver crashed: %s: %s" % (type(e).__name__, e), {"case": case}, no_input=True)
+                continue
+            nfail += 1
+            for sig, msg in judge_failure_case(case, loc, dk):
+                if sig in known:
+                    out.known_finding(sig, known[sig]["what"])
+                elif sig not in found:
+                    found[sig] = (msg, case, sig)
+                    out.violation(sig, msg, {"case": case, "local": loc["sunk"], "dask": dk["sunk"], "schedule": [s_[0] for s_ in dk["steps"]]})
+        found = {k_: v_ for k_, v_ in found.items() if not str(k_).startswith("C20/after-failure")}
     t_impl = time.time() - t0
     # one report per failure class: smallest failing case, shrunk; the signature names the node kinds of the shrunk pipeline
     for cl, (msg, case, sig) in sorted(found.items()):
